@@ -144,6 +144,9 @@ IllFormed(ev) ==
        \cup If(\E i \in 1..m : rn[i].name # "" /\ rn[i].name \notin SrcNames(ev)
                    /\ ~(\E j \in 1..(i - 1) : rn[j].name = rn[i].base), "first use of a user name not preserved")
        \cup If(sh.sense # ev.sense, "optimisation sense changed")
+       \* auxiliary names cannot collide with user names: the same model with its $-named user variables
+       \* renamed to plain names compiles to as many variables (or this one is refused)
+       \cup If("plain" \in DOMAIN ev /\ ev.plain.out = "ok" /\ ev.plain.nvars # n, "an auxiliary shares its name with a user variable (renaming the user variable changes the number of variables)")
 ErrKinds == {"NonLinearExpression", "DivisionByZero", "EmptyAggregation", "VarAlreadyDeclared",
              "UnimplementedExpression", "NonBinaryLogicOperand", "MissingFiniteBounds",
              "NonFiniteConstant", "InvalidDomain", "UndeclaredVariable"}
